@@ -17,7 +17,7 @@ VERIF = os.path.dirname(os.path.dirname(os.path.abspath(__file__)))
 
 
 def sh(cmd, **kw):
-    return subprocess.run(cmd, stdout=subprocess.PIPE, stderr=subprocess.STDOUT, text=True, **kw)
+    return subprocess.run(cmd, stdout=subprocess.PIPE, stderr=subprocess.STDOUT, text=True, errors="replace", **kw)
 
 
 def main():
@@ -32,22 +32,39 @@ def main():
             "repo_head": sh(["git", "-C", "/repo", "rev-parse", "--short", "HEAD"]).stdout.strip()}
     try:
         sh(["git", "-C", "/repo", "worktree", "add", "--detach", "-f", wt, "HEAD"])
-        # demo without the patch
-        std = "-std=c++20" if "c++20" in open(demo).read()[:400].lower() else "-std=c++17"
-        flags = ["g++", std, "-O1", "-I" + wt + "/source/include", demo, "-o", scratch + "/demo"]
-        r = sh(flags)
-        meta["demo_compiles_without"] = r.returncode == 0
-        r0 = sh([scratch + "/demo"], timeout=300) if r.returncode == 0 else None
-        meta["demo_exit_without_patch"] = r0.returncode if r0 else None
-        a = sh(["git", "-C", wt, "apply", patch])
-        meta["patch_applies"] = a.returncode == 0
-        if a.returncode != 0:
-            print(a.stdout)
-        r = sh(flags)
-        meta["demo_compiles_with"] = r.returncode == 0
-        r1 = sh([scratch + "/demo"], timeout=300) if r.returncode == 0 else None
-        meta["demo_exit_with_patch"] = r1.returncode if r1 else None
-        meta["demo_output_with_patch"] = (r1.stdout[-600:] if r1 else r.stdout[-600:])
+        demo_sh = os.path.join(outdir, "demo.sh")
+        if os.path.exists(demo_sh):
+            # script demonstration: re-run against the scratch worktree through $SV_INCLUDE / $SV_SUPPORT
+            demodir = scratch + "/demo_files"
+            shutil.copytree(outdir, demodir)
+            env = dict(os.environ)
+            env["SV_INCLUDE"] = wt + "/source/include"
+            env["SV_SUPPORT"] = wt + "/source/support"
+            r0 = sh(["bash", "demo.sh"], cwd=demodir, env=env, timeout=1200)
+            meta["demo_kind"] = "demo.sh"
+            meta["demo_exit_without_patch"] = r0.returncode
+            a = sh(["git", "-C", wt, "apply", patch])
+            meta["patch_applies"] = a.returncode == 0
+            r1 = sh(["bash", "demo.sh"], cwd=demodir, env=env, timeout=1200)
+            meta["demo_exit_with_patch"] = r1.returncode
+            meta["demo_output_with_patch"] = r1.stdout[-800:]
+        else:
+            # demo without the patch
+            std = "-std=c++20" if "c++20" in open(demo).read()[:400].lower() else "-std=c++17"
+            flags = ["g++", std, "-O1", "-I" + wt + "/source/include", demo, "-o", scratch + "/demo"]
+            r = sh(flags)
+            meta["demo_compiles_without"] = r.returncode == 0
+            r0 = sh([scratch + "/demo"], timeout=300) if r.returncode == 0 else None
+            meta["demo_exit_without_patch"] = r0.returncode if r0 else None
+            a = sh(["git", "-C", wt, "apply", patch])
+            meta["patch_applies"] = a.returncode == 0
+            if a.returncode != 0:
+                print(a.stdout)
+            r = sh(flags)
+            meta["demo_compiles_with"] = r.returncode == 0
+            r1 = sh([scratch + "/demo"], timeout=300) if r.returncode == 0 else None
+            meta["demo_exit_with_patch"] = r1.returncode if r1 else None
+            meta["demo_output_with_patch"] = (r1.stdout[-600:] if r1 else r.stdout[-600:])
         if not skip_suite:
             s = sh([os.path.join(VERIF, "tools/run_suite.sh"), wt, "8"])
             meta["suite"] = s.stdout.strip().splitlines()[-1] if s.stdout.strip() else "?"
@@ -65,7 +82,10 @@ def main():
         d = os.path.join(VERIF, "seeded", sid)
         os.makedirs(d, exist_ok=True)
         shutil.copy(patch, d + "/patch.diff")
-        shutil.copy(demo, d + "/demo.cpp")
+        for f in os.listdir(outdir):
+            if f.startswith("demo") or f.endswith((".cpp", ".py", ".sh", ".hpp")):
+                if os.path.isfile(os.path.join(outdir, f)) and os.path.getsize(os.path.join(outdir, f)) < 200000:
+                    shutil.copy(os.path.join(outdir, f), d + "/" + f)
         if os.path.exists(os.path.join(outdir, "NOTES.md")):
             shutil.copy(os.path.join(outdir, "NOTES.md"), d + "/NOTES.md")
         notes = open(d + "/NOTES.md").read() if os.path.exists(d + "/NOTES.md") else ""
